@@ -114,7 +114,9 @@ NUMERIC = ["digits({a}, {b})", "digits({a})", "{a} ** {b}", "pow({a}, {b})", "fa
            "('a' * {s}).replace('a', 'bb').len()", "json_deserialize('[' * {s})", "json_deserialize('[' * {s} + ']' * {s})", "e ** {a}", "2.0 ** {a}", "sqrt({a})", "isqrt({a})",
            "{a}.bits()", "{a}.bit_length()", "random_choices([1, 2], {a}).len()", "sample(range({a}), 3).len()", "shuffle(range({a}))[0]", "binomial_distribution({a}, 0.5).quantile(0.5)",
            "poisson_distribution({a}.to_float()).quantile(0.5)", "poisson_distribution(5.0).sample({a}).len()", "uniform_distribution(0, {a}).sample({s}).len()",
-           "hypergeometric_distribution({a}, {b}, {a}).quantile(0.5)", "negative_binomial_distribution({a}.to_float(), 0.5).quantile(0.999999)", "geometric_distribution(0.000000001).quantile(0.999999999)"]
+           "hypergeometric_distribution({a}, {b}, {a}).quantile(0.5)", "negative_binomial_distribution({a}.to_float(), 0.5).quantile(0.999999)", "geometric_distribution(0.000000001).quantile(0.999999999)",
+           "gamma_distribution({a}.to_float(), 1.0).cdf({a}.to_float())", "chisq_distribution({a}).quantile(0.5)", "gamma_distribution({a}.to_float(), 2.5).quantile(0.5)", "binomial_distribution({a}, 0.5).random()",
+           "binomial_distribution({a}, 0.5).sample(3).len()", "hypergeometric_distribution({a}, 3, {a}).sample(3).len()", "hypergeometric_distribution({a}, {b}, {a}).random()", "rectangular_distribution(0.0, {a}.to_float()).random()"]
 
 
 class Hostile(Inhabiter):
